@@ -343,7 +343,7 @@ def seq_mem(v, x):
 def forall_p(vs, body, patterns):
     """ForAll with explicit patterns when z3 accepts them, automatic patterns otherwise."""
     def simple(t, depth=0):
-        if depth > 6 or not z3.is_app(t):
+        if depth > 30 or not z3.is_app(t):
             return not z3.is_quantifier(t)
         if t.decl().kind() in (z3.Z3_OP_ITE, z3.Z3_OP_OR, z3.Z3_OP_AND, z3.Z3_OP_NOT, z3.Z3_OP_EQ):
             return False
